@@ -34,6 +34,7 @@ import (
 const (
 	c11SigProfileLog = "profile-log-rule-panics"
 	c11SigProtoName  = "protocol-name-icmpv6-udplite-matches-proto-0"
+	c11SigDeadExit   = "split-at-unreachable-point-leaves-dead-exit-stub"
 )
 
 // ---------------------------------------------------------------------------------------------
@@ -1116,6 +1117,60 @@ func c11DescribeSets(sets map[string]*c11Set) string {
 	return sb.String()
 }
 
+// c11StripDeadExitStub returns prog without its last two instructions iff they are a statically
+// unreachable "MovImm64 R0, imm; Exit" stub (previous instruction does not fall through and no
+// jump targets either of them); nil otherwise.
+func c11StripDeadExitStub(prog asm.Insns) asm.Insns {
+	n := len(prog)
+	if n < 3 || prog[n-1].OpCode() != asm.Exit || prog[n-2].OpCode() != asm.MovImm64 || prog[n-2].Dst() != asm.R0 {
+		return nil
+	}
+	if op := prog[n-3].OpCode(); op != asm.Exit && op != asm.JumpA {
+		return nil
+	}
+	for pc := 0; pc < n; pc++ {
+		in := prog[pc]
+		if in.OpCode() == asm.LoadImm64 {
+			pc++
+			continue
+		}
+		cls := in.OpClass()
+		if (cls == asm.OpClassJump64 || cls == asm.OpClassJump32) && in.OpCode() != asm.Call && in.OpCode() != asm.Exit {
+			if tgt := pc + 1 + int(in.Off()); tgt >= n-2 {
+				return nil
+			}
+		}
+	}
+	return prog[:n-2]
+}
+
+// c11DisasmAround prints the instructions around the failing pc of an invalid program.
+func c11DisasmAround(progs []asm.Insns, chain []bpfvm.TailCall, err error) string {
+	ipe, ok := err.(*bpfvm.InvalidProgramError)
+	if !ok || ipe.Prog >= len(progs) || ipe.Prog < 0 {
+		return ""
+	}
+	// Sub-programs are entered in order, so position in the chain == index in progs.
+	prog := progs[ipe.Prog]
+	var sb strings.Builder
+	from, to := ipe.PC-25, ipe.PC+6
+	if from < 0 {
+		from = 0
+	}
+	if to > len(prog) {
+		to = len(prog)
+	}
+	fmt.Fprintf(&sb, "sub-program %d (%d insns), pc %d..%d:\n", ipe.Prog, len(prog), from, to-1)
+	for pc := from; pc < to; pc++ {
+		mark := "  "
+		if pc == ipe.PC {
+			mark = "=>"
+		}
+		fmt.Fprintf(&sb, " %s %4d: %v   %v %v\n", mark, pc, prog[pc], prog[pc].Labels, prog[pc].Annotation)
+	}
+	return sb.String()
+}
+
 func c11Bucket(n int) string {
 	switch {
 	case n <= 1:
@@ -1155,13 +1210,13 @@ func c11RunCase(t *rapid.T, rec *ev.Recorder) {
 	// Splitting: Felix always passes WithPolicyMapIndexAndStride; the jump limit is the knob this
 	// in-package harness turns down so that small configurations split.
 	cfg.SplitEnabled = rapid.IntRange(0, 9).Draw(t, "splitEnabled") != 0
-	switch rapid.IntRange(0, 3).Draw(t, "jumpLimitClass") {
+	switch rapid.IntRange(0, 9).Draw(t, "jumpLimitClass") {
 	case 0: // default limit: never splits at these sizes
-	case 1:
+	case 1, 2, 3, 4:
 		cfg.MaxJumps = rapid.IntRange(12, 40).Draw(t, "maxJumpsSmall")
-	case 2:
+	case 5, 6, 7:
 		cfg.MaxJumps = rapid.IntRange(40, 120).Draw(t, "maxJumpsMid")
-	case 3:
+	default:
 		cfg.MaxJumps = rapid.IntRange(120, 400).Draw(t, "maxJumpsLarge")
 	}
 	switch rapid.IntRange(0, 2).Draw(t, "trampClass") {
@@ -1176,6 +1231,7 @@ func c11RunCase(t *rapid.T, rec *ev.Recorder) {
 	g.genSets()
 
 	var rules Rules
+	manyTiers := false
 	denyPass := []TierEndAction{TierEndDeny, TierEndDeny, TierEndPass}
 	passOnly := []TierEndAction{TierEndPass}
 	switch mode {
@@ -1198,7 +1254,21 @@ func c11RunCase(t *rapid.T, rec *ev.Recorder) {
 			rules.HostNormalTiers = g.genTiers("normal", 1, false, denyPass)
 			rules.HostProfiles = g.genProfiles("hostprof", 1)
 		}
-		rules.Tiers = g.genTiers("tiers", 3, false, denyPass)
+		if g.maybe("manyPassTiers", 12) {
+			// More than MaxRuleIDs (32) rule hits on one path: a chain of tiers that all pass.
+			n := rapid.IntRange(30, 56).Draw(t, "manyPassTiers.n")
+			for i := 0; i < n; i++ {
+				pr := &proto.Rule{Action: "pass", RuleId: fmt.Sprintf("pass-%d", i)}
+				end := TierEndPass
+				pol := Policy{Kind: "GlobalNetworkPolicy", Name: fmt.Sprintf("passer-%d", i), Rules: []Rule{{Rule: pr, MatchID: uint64(0x7000 + i)}}}
+				if i%3 == 2 {
+					pol.Rules = nil // reaches the end-of-tier pass instead
+				}
+				rules.Tiers = append(rules.Tiers, Tier{Name: fmt.Sprintf("pt-%d", i), EndAction: end, EndRuleID: uint64(0x7100 + i), Policies: []Policy{pol}})
+			}
+			manyTiers = true
+		}
+		rules.Tiers = append(rules.Tiers, g.genTiers("tiers", 3, false, denyPass)...)
 		rules.Profiles = g.genProfiles("profiles", 2)
 	}
 	rules.NoProfileMatchID = 0xDEAD
@@ -1235,6 +1305,16 @@ func c11RunCase(t *rapid.T, rec *ev.Recorder) {
 	progs := built.progs
 	if len(progs) == 0 {
 		t.Fatalf("C11 VIOLATION: Instructions() returned no program\n%s", describe())
+	}
+	if ev.Known(c11SigDeadExit) {
+		// Known finding: tolerate exactly the dead two-instruction exit stub at the end of a
+		// sub-program (stripping it does not move any jump target) so the search goes on.
+		for i := range progs {
+			if st := c11StripDeadExitStub(progs[i]); st != nil {
+				progs[i] = st
+				rec.Excluded(c11SigDeadExit)
+			}
+		}
 	}
 	trampolines := false
 	if cfg.TrampStride > 0 {
@@ -1286,7 +1366,7 @@ func c11RunCase(t *rapid.T, rec *ev.Recorder) {
 			return fmt.Sprintf("packet %v\nreference verdict: %v (%s)\nprograms: %d, chain: %+v\n%s", pkt, want, tr.decidedBy, len(progs), res.Raw.Chain, describe())
 		}
 		if err != nil {
-			t.Fatalf("C11 VIOLATION: interpreter rejects the generated program: %v\n%s", err, ctx())
+			t.Fatalf("C11 VIOLATION: interpreter rejects the generated program: %v\n%s\n%s", err, c11DisasmAround(progs, res.Raw.Chain, err), ctx())
 		}
 		for _, f := range res.Raw.FailedTailCalls {
 			if f.MapFD == bpfvm.FDPolicyMap {
@@ -1352,6 +1432,9 @@ func c11RunCase(t *rapid.T, rec *ev.Recorder) {
 	if cfg.FlowLogs {
 		classes = append(classes, "flowlogs")
 	}
+	if manyTiers {
+		classes = append(classes, "more-than-32-rule-hits")
+	}
 	if cfg.Debug {
 		classes = append(classes, "policy-debug")
 	}
@@ -1386,4 +1469,367 @@ func TestVerifC11PolicyPrograms(t *testing.T) {
 		"maxJumpsPerProgram (12..400) and trampoline stride (24..1500) are reduced below production values to reach splitting with small inputs")
 	defer rec.Write()
 	rapid.Check(t, func(t *rapid.T) { c11RunCase(t, rec) })
+}
+
+// ---------------------------------------------------------------------------------------------
+// Confirmation tests for findings on the unchanged tree.  They are NOT matched by the unit's run
+// regex; the driver runs them by name for entries of KNOWN_FINDINGS.json (they FAIL while the
+// defect is present and pass once it is repaired).
+
+func c11MustCompile(t *testing.T, cfg c11Config, alloc *idalloc.IDAllocator, rules Rules) []asm.Insns {
+	b := c11Compile(cfg, alloc, rules, 0)
+	if b.pnc != nil {
+		t.Fatalf("Instructions() panicked: %v", b.pnc)
+	}
+	if b.err != nil {
+		t.Fatalf("Instructions() failed: %v", b.err)
+	}
+	return b.progs
+}
+
+// A profile containing a Log rule (valid v3 Profile; iptables renders a LOG rule for it).
+func TestVerifC11ConfirmProfileLogRule(t *testing.T) {
+	ev.Quiet()
+	rules := Rules{Profiles: []Profile{{Name: "prof", Rules: []Rule{
+		{Rule: &proto.Rule{Action: "log"}},
+		{Rule: &proto.Rule{Action: "allow"}},
+	}}}}
+	cfg := c11Config{AllowIdx: 1, DenyIdx: 2, SplitEnabled: true, PolIdx: 3, Stride: jump.TCMaxEntryPoints}
+	progs := c11MustCompile(t, cfg, idalloc.New(), rules)
+	env := bpfvm.NewPolicyEnv(false, false, 1, 2, 0)
+	entry, _ := env.InstallPolicy(progs, 3, jump.TCMaxEntryPoints)
+	res, err := env.Run(entry, bpfvm.PolicyPacket{Proto: 6, Src: netip.MustParseAddr("10.0.0.1"),
+		DstPreNAT: netip.MustParseAddr("10.0.0.2"), DstPostNAT: netip.MustParseAddr("10.0.0.2")})
+	if err != nil || res.Verdict != bpfvm.VerdictAllow {
+		t.Fatalf("expected allow after the log rule, got %v %s err=%v", res.Verdict, res.Detail, err)
+	}
+}
+
+// Protocol given by one of the API's names that protocolToNumber does not know.
+func TestVerifC11ConfirmProtocolNames(t *testing.T) {
+	ev.Quiet()
+	for _, tc := range []struct {
+		name string
+		num  uint8
+		v6   bool
+		ver  proto.IPVersion
+	}{{"icmpv6", 58, true, proto.IPVersion_IPV6}, {"udplite", 136, false, proto.IPVersion_ANY}, {"udplite", 136, true, proto.IPVersion_ANY}} {
+		rules := Rules{Tiers: []Tier{{Name: "default", EndAction: TierEndDeny, Policies: []Policy{{Name: "p", Rules: []Rule{
+			{Rule: &proto.Rule{Action: "allow", IpVersion: tc.ver, Protocol: &proto.Protocol{NumberOrName: &proto.Protocol_Name{Name: tc.name}}}},
+		}}}}}}
+		cfg := c11Config{V6: tc.v6, AllowIdx: 1, DenyIdx: 2, SplitEnabled: true, PolIdx: 3, Stride: jump.TCMaxEntryPoints}
+		progs := c11MustCompile(t, cfg, idalloc.New(), rules)
+		env := bpfvm.NewPolicyEnv(tc.v6, false, 1, 2, 0)
+		entry, _ := env.InstallPolicy(progs, 3, jump.TCMaxEntryPoints)
+		a, b := "10.0.0.1", "10.0.0.2"
+		if tc.v6 {
+			a, b = "fd00::1", "fd00::2"
+		}
+		res, err := env.Run(entry, bpfvm.PolicyPacket{Proto: tc.num, Src: netip.MustParseAddr(a),
+			DstPreNAT: netip.MustParseAddr(b), DstPostNAT: netip.MustParseAddr(b)})
+		if err != nil || res.Verdict != bpfvm.VerdictAllow {
+			t.Errorf("rule 'allow protocol %s' (v6=%v) on a packet with IP protocol %d: got %v %s err=%v, want allow",
+				tc.name, tc.v6, tc.num, res.Verdict, res.Detail, err)
+		}
+	}
+}
+
+// Production jump limit (maxJumpsPerProgram left at its default): one tier whose policies contain
+// only simple "allow tcp" rules (2 jumps each), no pass rule, end-of-tier deny, followed by a profile.
+// When the end-of-tier deny's jump is the one that reaches the limit, the next maybeSplitProgram
+// call (first profile rule) happens at a point that is not reachable, and the sub-program ends
+// with a dead exit stub.  The loop varies the rule count so that the test does not depend on the
+// exact number of jumps in the program header.
+func TestVerifC11ConfirmDeadExitStub(t *testing.T) {
+	ev.Quiet()
+	bad := 0
+	for mm := 2 * (defaultPerProgramJumpLimit/2 - 8); mm <= 2*(defaultPerProgramJumpLimit/2+2)+1; mm++ {
+		m := mm / 2
+		pol := Policy{Kind: "NetworkPolicy", Namespace: "ns", Name: "np"}
+		if mm%2 == 1 {
+			// one rule with an odd number of jumps (3) so that every jump count is tried
+			pol.Rules = append(pol.Rules, Rule{Rule: &proto.Rule{Action: "allow",
+				Protocol:    &proto.Protocol{NumberOrName: &proto.Protocol_Name{Name: "tcp"}},
+				NotProtocol: &proto.Protocol{NumberOrName: &proto.Protocol_Name{Name: "udp"}}}})
+		}
+		for j := 0; j < m; j++ {
+			pol.Rules = append(pol.Rules, Rule{Rule: &proto.Rule{Action: "allow",
+				Protocol: &proto.Protocol{NumberOrName: &proto.Protocol_Name{Name: "tcp"}}}})
+		}
+		rules := Rules{
+			SuppressNormalHostPolicy: true,
+			Tiers:                    []Tier{{Name: "default", EndAction: TierEndDeny, Policies: []Policy{pol}}},
+			Profiles:                 []Profile{{Name: "kns.ns", Rules: []Rule{{Rule: &proto.Rule{Action: "allow"}}}}},
+		}
+		cfg := c11Config{AllowIdx: 1, DenyIdx: 2, SplitEnabled: true, PolIdx: 3, Stride: jump.TCMaxEntryPoints}
+		progs := c11MustCompile(t, cfg, idalloc.New(), rules)
+		for i, p := range progs {
+			if err := bpfvm.Verify(p); err != nil {
+				bad++
+				t.Errorf("%d simple rules (+%d three-jump rule): sub-program %d/%d would be rejected by the kernel verifier: %v\n%s", m, mm%2, i, len(progs), err,
+					c11DisasmAround(progs, nil, &bpfvm.InvalidProgramError{Prog: i, PC: err.(*bpfvm.InvalidProgramError).PC}))
+			}
+		}
+	}
+	if bad == 0 {
+		t.Logf("no sub-program with dead code for any rule count tried")
+	}
+}
+
+// ---------------------------------------------------------------------------------------------
+// Self-test of the bpfvm kit on hand-written programs (deterministic; part of the unit so that a
+// broken interpreter cannot silently weaken the check).
+
+func c11vmAsm(t *testing.T, f func(b *asm.Block)) asm.Insns {
+	b := asm.NewBlock(false)
+	f(b)
+	insns, err := b.Assemble()
+	if err != nil {
+		t.Fatalf("assemble: %v", err)
+	}
+	return insns
+}
+
+func c11vmExpectInvalid(t *testing.T, name string, vm *bpfvm.VM, prog asm.Insns, wantSubstr string) {
+	_, err := vm.Run(prog)
+	if err == nil {
+		t.Errorf("%s: expected program to be rejected (%s), but it ran", name, wantSubstr)
+		return
+	}
+	if _, ok := err.(*bpfvm.InvalidProgramError); !ok || !strings.Contains(err.Error(), wantSubstr) {
+		t.Errorf("%s: expected rejection containing %q, got %v", name, wantSubstr, err)
+	}
+}
+
+func TestVerifC11VMSelfTest(t *testing.T) {
+	ev.Quiet()
+	fo := func(off int16) asm.FieldOffset { return asm.FieldOffset{Offset: off} }
+
+	// 1. ALU, endianness, 32-bit zero extension, signed/unsigned jumps.
+	vm := bpfvm.New()
+	prog := c11vmAsm(t, func(b *asm.Block) {
+		b.LoadImm64(asm.R1, 0x1122334455667788)
+		b.Mov64(asm.R2, asm.R1)
+		b.Instr(asm.OpClassALU32|asm.ALUOpEndian|asm.OpEndianToBE, asm.R2, 0, 0, 32, "") // R2 = bswap32(0x55667788) = 0x88776655
+		b.Instr(asm.AddImm32, asm.R1, 0, 0, -1, "")                                       // R1 = 0x55667787 (upper half cleared)
+		b.Instr(asm.XOR64, asm.R2, asm.R1, 0, 0, "")                                     // 0x88776655 ^ 0x55667787 = 0xdd1111d2
+		b.MovImm64(asm.R3, -1)                                                           // 0xffff_ffff_ffff_ffff
+		b.Instr(asm.JumpSGTImm64, asm.R3, 0, 1, 0, "")                                   // -1 s> 0 ? no
+		b.Instr(asm.JumpGTImm64, asm.R3, 0, 1, 0, "")                                    // unsigned: yes, skip next
+		b.MovImm64(asm.R2, 0)
+		b.ShiftLImm64(asm.R2, 4) // 0xdd1111d20
+		b.Instr(asm.JumpLTImm32, asm.R3, 0, 1, 5, "") // 32-bit: 0xffffffff < 5 ? no
+		b.AddImm64(asm.R2, 1)
+		b.Mov64(asm.R0, asm.R2)
+		b.Exit()
+	})
+	res, err := vm.Run(prog)
+	if err != nil || res.R0 != 0xdd1111d21 {
+		t.Errorf("ALU self-test: R0=%#x err=%v, want 0xdd1111d21", res.R0, err)
+	}
+
+	// 2. Stack: uninitialised read, misaligned, out of bounds; initialised round trip.
+	c11vmExpectInvalid(t, "uninit stack", bpfvm.New(), c11vmAsm(t, func(b *asm.Block) {
+		b.LoadStack32(asm.R0, fo(-8))
+		b.Exit()
+	}), "uninitialised stack")
+	c11vmExpectInvalid(t, "partial init stack", bpfvm.New(), c11vmAsm(t, func(b *asm.Block) {
+		b.MovImm64(asm.R1, 7)
+		b.StoreStack32(asm.R1, -8)
+		b.LoadStack64(asm.R0, fo(-8))
+		b.Exit()
+	}), "uninitialised stack")
+	c11vmExpectInvalid(t, "misaligned stack", bpfvm.New(), c11vmAsm(t, func(b *asm.Block) {
+		b.MovImm64(asm.R1, 7)
+		b.StoreStack32(asm.R1, -6)
+		b.MovImm64(asm.R0, 0)
+		b.Exit()
+	}), "misaligned")
+	c11vmExpectInvalid(t, "stack overflow", bpfvm.New(), c11vmAsm(t, func(b *asm.Block) {
+		b.MovImm64(asm.R1, 7)
+		b.StoreStack64(asm.R1, -520)
+		b.MovImm64(asm.R0, 0)
+		b.Exit()
+	}), "out of bounds")
+	c11vmExpectInvalid(t, "uninit reg", bpfvm.New(), c11vmAsm(t, func(b *asm.Block) {
+		b.Mov64(asm.R0, asm.R3)
+		b.Exit()
+	}), "uninitialised register")
+	c11vmExpectInvalid(t, "exit without R0", bpfvm.New(), c11vmAsm(t, func(b *asm.Block) { b.Exit() }), "uninitialised R0")
+
+	// 3. Map value access: NULL check required, bounds enforced, writes persist, pointer + scalar.
+	mkLookup := func(b *asm.Block, fd uint32) {
+		b.MovImm64(asm.R1, 0)
+		b.StoreStack32(asm.R1, -4)
+		b.Mov64(asm.R2, asm.R10)
+		b.AddImm64(asm.R2, -4)
+		b.LoadMapFD(asm.R1, fd)
+		b.Call(asm.HelperMapLookupElem)
+	}
+	vm = bpfvm.New()
+	arr := bpfvm.NewArrayMap("arr", 16, 1)
+	vm.AddMap(7, arr)
+	c11vmExpectInvalid(t, "no null check", vm, c11vmAsm(t, func(b *asm.Block) {
+		mkLookup(b, 7)
+		b.Load32(asm.R0, asm.R0, fo(0))
+		b.Exit()
+	}), "not NULL-checked")
+	c11vmExpectInvalid(t, "map value OOB", vm, c11vmAsm(t, func(b *asm.Block) {
+		mkLookup(b, 7)
+		b.JumpEqImm64(asm.R0, 0, "out")
+		b.Load32(asm.R1, asm.R0, fo(13))
+		b.LabelNextInsn("out")
+		b.MovImm64(asm.R0, 0)
+		b.Exit()
+	}), "out of bounds")
+	c11vmExpectInvalid(t, "caller-saved clobbered", vm, c11vmAsm(t, func(b *asm.Block) {
+		mkLookup(b, 7)
+		b.Mov64(asm.R0, asm.R2)
+		b.Exit()
+	}), "uninitialised register R2")
+	c11vmExpectInvalid(t, "unknown map fd", vm, c11vmAsm(t, func(b *asm.Block) {
+		mkLookup(b, 99)
+		b.MovImm64(asm.R0, 0)
+		b.Exit()
+	}), "unknown map fd")
+	prog = c11vmAsm(t, func(b *asm.Block) {
+		mkLookup(b, 7)
+		b.JumpEqImm64(asm.R0, 0, "out")
+		b.Mov64(asm.R9, asm.R0)
+		b.MovImm64(asm.R1, 1)
+		b.ShiftLImm64(asm.R1, 3)
+		b.Add64(asm.R1, asm.R9) // scalar + pointer
+		b.LoadImm64(asm.R2, 0x0102030405060708)
+		b.Store64(asm.R1, asm.R2, fo(0))
+		b.Load8(asm.R0, asm.R9, fo(9))
+		b.Exit()
+		b.LabelNextInsn("out")
+		b.MovImm64(asm.R0, 99)
+		b.Exit()
+	})
+	res, err = vm.Run(prog)
+	if err != nil || res.R0 != 7 || arr.Get(0)[8] != 8 || arr.Get(0)[15] != 1 {
+		t.Errorf("map value self-test: R0=%d err=%v value=%v", res.R0, err, arr.Get(0))
+	}
+
+	// 4. Static checks: unreachable instruction, jump out of range, unknown opcode, unknown helper.
+	if err := bpfvm.Verify(asm.Insns{asm.MakeInsn(asm.MovImm64, asm.R0, 0, 0, 0), asm.MakeInsn(asm.Exit, 0, 0, 0, 0),
+		asm.MakeInsn(asm.MovImm64, asm.R0, 0, 0, 1), asm.MakeInsn(asm.Exit, 0, 0, 0, 0)}); err == nil || !strings.Contains(err.Error(), "unreachable") {
+		t.Errorf("dead code not rejected: %v", err)
+	}
+	if err := bpfvm.Verify(asm.Insns{asm.MakeInsn(asm.JumpA, 0, 0, 5, 0), asm.MakeInsn(asm.Exit, 0, 0, 0, 0)}); err == nil || !strings.Contains(err.Error(), "out of range") {
+		t.Errorf("wild jump not rejected: %v", err)
+	}
+	if err := bpfvm.Verify(asm.Insns{asm.MakeInsn(asm.MovImm64, asm.R0, 0, 0, 0)}); err == nil || !strings.Contains(err.Error(), "falls off") {
+		t.Errorf("fall-off not rejected: %v", err)
+	}
+	if err := bpfvm.Verify(asm.Insns{asm.MakeInsn(asm.OpCode(0xff), 0, 0, 0, 0), asm.MakeInsn(asm.Exit, 0, 0, 0, 0)}); err == nil {
+		t.Errorf("unknown opcode not rejected")
+	}
+	c11vmExpectInvalid(t, "unknown helper", bpfvm.New(), c11vmAsm(t, func(b *asm.Block) {
+		b.Call(asm.HelperGetPrandomU32)
+		b.Exit()
+	}), "unsupported helper")
+
+	// 5. LPM trie: longest prefix wins, prefix length of the key bounds the match, bit-granular prefixes.
+	lpm := bpfvm.NewLPMTrie("lpm", 8, 4) // 4 data bytes
+	key := func(plen uint32, a, b, c, d byte) []byte { return []byte{byte(plen), 0, 0, 0, a, b, c, d} }
+	must := func(err error) {
+		if err != nil {
+			t.Fatalf("lpm update: %v", err)
+		}
+	}
+	must(lpm.Update(key(8, 10, 0, 0, 0), []byte{1, 0, 0, 0}))
+	must(lpm.Update(key(25, 10, 0, 0, 128), []byte{2, 0, 0, 0}))
+	must(lpm.Update(key(32, 10, 0, 0, 129), []byte{3, 0, 0, 0}))
+	must(lpm.Update(key(0, 0, 0, 0, 0), []byte{9, 0, 0, 0}))
+	if lpm.Update(key(33, 1, 2, 3, 4), []byte{0, 0, 0, 0}) == nil {
+		t.Errorf("lpm accepted over-long prefix")
+	}
+	for _, tc := range []struct {
+		k    []byte
+		want byte
+	}{
+		{key(32, 10, 0, 0, 129), 3}, {key(32, 10, 0, 0, 130), 2}, {key(32, 10, 0, 0, 127), 1}, {key(32, 11, 0, 0, 1), 9},
+		{key(24, 10, 0, 0, 129), 1}, {key(31, 10, 0, 0, 129), 2}, {key(7, 10, 0, 0, 0), 9},
+	} {
+		got := lpm.Lookup(tc.k)
+		if got == nil || got[0] != tc.want {
+			t.Errorf("lpm lookup %v: got %v want %d", tc.k, got, tc.want)
+		}
+	}
+	empty := bpfvm.NewLPMTrie("lpm2", 8, 4)
+	if empty.Lookup(key(32, 1, 2, 3, 4)) != nil {
+		t.Errorf("lookup in empty trie hit")
+	}
+
+	// 6. Tail calls: chain through a sub-program with a fresh stack, terminal stub, empty slot falls through.
+	vm = bpfvm.New()
+	vm.SetSkbCtx(0, 0)
+	pa := bpfvm.NewProgArray("progs", 8)
+	vm.AddMap(5, pa)
+	stub := &bpfvm.Stub{Name: "end", RC: 77}
+	_ = pa.SetStub(2, stub)
+	tail := func(b *asm.Block, idx int32) {
+		b.Mov64(asm.R1, asm.R6)
+		b.LoadMapFD(asm.R2, 5)
+		b.MovImm64(asm.R3, idx)
+		b.Call(asm.HelperTailCall)
+	}
+	sub := c11vmAsm(t, func(b *asm.Block) {
+		b.Mov64(asm.R6, asm.R1)
+		tail(b, 3) // empty slot: falls through
+		tail(b, 2)
+		b.MovImm64(asm.R0, 5)
+		b.Exit()
+	})
+	_ = pa.SetProgram(1, &bpfvm.SubProgram{Name: "sub", Insns: sub})
+	res, err = vm.Run(c11vmAsm(t, func(b *asm.Block) {
+		b.Mov64(asm.R6, asm.R1)
+		b.MovImm64(asm.R1, 1)
+		b.StoreStack64(asm.R1, -8)
+		tail(b, 1)
+		b.MovImm64(asm.R0, 6)
+		b.Exit()
+	}))
+	if err != nil || res.Exit != bpfvm.ExitTailCall || res.Stub != stub || res.R0 != 77 || len(res.Chain) != 1 || res.Chain[0].Index != 1 ||
+		len(res.FailedTailCalls) != 1 || res.FailedTailCalls[0].Index != 3 {
+		t.Errorf("tail call self-test: %+v err=%v", res, err)
+	}
+	_ = pa.SetProgram(1, &bpfvm.SubProgram{Name: "sub-reads-old-stack", Insns: c11vmAsm(t, func(b *asm.Block) {
+		b.LoadStack64(asm.R0, fo(-8))
+		b.Exit()
+	})})
+	c11vmExpectInvalid(t, "fresh stack after tail call", vm, c11vmAsm(t, func(b *asm.Block) {
+		b.Mov64(asm.R6, asm.R1)
+		b.MovImm64(asm.R1, 1)
+		b.StoreStack64(asm.R1, -8)
+		tail(b, 1)
+		b.MovImm64(asm.R0, 6)
+		b.Exit()
+	}), "uninitialised stack")
+	c11vmExpectInvalid(t, "R0 after failed tail call", vm, c11vmAsm(t, func(b *asm.Block) {
+		b.Mov64(asm.R6, asm.R1)
+		b.MovImm64(asm.R0, 1)
+		tail(b, 6)
+		b.Exit()
+	}), "uninitialised R0")
+	// ctx: cb readable and writable, other fields read-only, XDP ctx too small for cb.
+	c11vmExpectInvalid(t, "ctx write outside cb", vm, c11vmAsm(t, func(b *asm.Block) {
+		b.MovImm64(asm.R2, 1)
+		b.Store32(asm.R1, asm.R2, fo(0))
+		b.MovImm64(asm.R0, 0)
+		b.Exit()
+	}), "read-only")
+	xvm := bpfvm.New()
+	xvm.SetXDPCtx()
+	c11vmExpectInvalid(t, "xdp ctx has no cb", xvm, c11vmAsm(t, func(b *asm.Block) {
+		b.Load32(asm.R0, asm.R1, fo(48))
+		b.Exit()
+	}), "out of bounds")
+	// step budget
+	lvm := bpfvm.New()
+	lvm.StepBudget = 1000
+	c11vmExpectInvalid(t, "infinite loop", lvm, asm.Insns{asm.MakeInsn(asm.MovImm64, asm.R0, 0, 0, 0),
+		asm.MakeInsn(asm.JumpEqImm64, asm.R0, 0, -1, 0), asm.MakeInsn(asm.Exit, 0, 0, 0, 0)}, "step budget")
 }
